@@ -424,7 +424,6 @@ def run(ctx: Context):
         inner = bu.nested.get("_got_size")
         if inner is None:
             raise AnchorVanished("BaseUploadable.get_all_encoding_parameters._got_size")
-        odefs = def_exprs(bu)
         tuples = [x.value for x in func_own_nodes(inner) if isinstance(x, ast.Assign)
                   and isinstance(x.value, ast.Tuple) and len(x.value.elts) == 4]
         if not tuples:
@@ -432,7 +431,11 @@ def run(ctx: Context):
         for t in tuples:
             r.site(inner, t, "parameter tuple")
             e1 = t.elts[1]
-            dep = depends_on(inner, e1) | (depends_on(bu, e1, defs=odefs))
+            defs = {}
+            for f in (bu, inner):
+                for k, v in def_exprs(f).items():
+                    defs.setdefault(k, []).extend(v)
+            dep = depends_on(inner, e1, defs=defs)
             ok = any(d.endswith("encoding_param_happy") for d in dep) and not any(
                 d.endswith("encoding_param_k") or d.endswith("encoding_param_n") for d in dep)
             r.require(ok, inner, inner.loc(t), "element 1 of the encoding-parameter tuple (%s) is not the "
@@ -542,7 +545,6 @@ def run(ctx: Context):
                 if isinstance(par, ast.Assign) and par.value is outer and len(par.targets) == 1:
                     var = attr_path(par.targets[0])
                 if var:
-                    after = False
                     for reg in registrations(m, var=var):
                         regs.append((reg.kind, reg.call, reg))
                 first_fail = [x for x in regs if x[0] in ("eb", "both", "pair")]
@@ -556,7 +558,7 @@ def run(ctx: Context):
                 ok = kind == "eb" and is_self_method(tgt, "_remove_shareholder")
                 if not r.require(ok, m, m.loc(rc), "the first failure handler on the Deferred of %s (share holder %s) "
                                  "is %s, not self._remove_shareholder: the failure is consumed before the share "
-                                 "holder is removed" % (tail, ix, src(m, rc.func.attr and rc))):
+                                 "holder is removed" % (tail, ix, src(m, rc))):
                     continue
                 a1 = rc.args[1] if len(rc.args) > 1 else None
                 got = fnorm.norm(node, a1) if a1 is not None else None
@@ -752,9 +754,8 @@ def run(ctx: Context):
                                 (isinstance(rv, ast.Name) and rv.id == t and
                                  any(call_tail(x) in ("values",) for x in ast.walk(lp.iter) if isinstance(x, ast.Call))):
                             loops.append((lp, c))
-        if not r.require(bool(loops), fn, fn.loc(), "Encoder.err has no loop aborting self.landlords[..]: partial "
-                         "shares stay allocated on the servers after a failed upload"):
-            pass
+        r.require(bool(loops), fn, fn.loc(), "Encoder.err has no loop aborting self.landlords[..]: partial "
+                  "shares stay allocated on the servers after a failed upload")
         for (lp, c) in loops:
             head = [n for n in cfg.nodes if n.kind == "iter" and n.ast is lp][0]
             isab = lambda n, _c=c: any(x is _c for x in node_calls(n))
